@@ -40,6 +40,35 @@ def large_conflict_terms(fb):
             stack += [x['c'][0], x['c'][1]]
         else:
             disj.append(x)
+    # an extracted helper (e.g. the overlap test moved into a static function) is looked through: its returned expression counts
+    expanded = []
+    for d in disj:
+        c = d.get('callee') if d['k'] == 'CallExpr' else None
+        if c and not c.get('ext') and c['m'] in fb.funcs:
+            rets = [strip(r['c'][0]) for r in fb.funcs[c['m']].walk() if r['k'] == 'ReturnStmt' and r.get('c')]
+            rets = [r for r in rets if r is not None and r['k'] != 'CXXBoolLiteralExpr']        # early `return false` guards
+            if len(rets) == 1:
+                st2 = [rets[0]]
+                while st2:
+                    x = strip(st2.pop())
+                    if x['k'] == 'BinaryOperator' and x.get('op') == '||':
+                        st2 += [x['c'][0], x['c'][1]]
+                    else:
+                        expanded.append(x)
+                continue
+        expanded.append(d)
+    # several overlap alternatives behind one helper still form one term of the definition
+    if sum(1 for x in expanded if {'first', 'second'} <= {y['ref']['name'] for y in sub(x) if y['k'] == 'MemberExpr'}) > 1 and len(expanded) > len(disj):
+        seen_overlap = False
+        tmp = []
+        for x in expanded:
+            is_ov = {'first', 'second'} <= {y['ref']['name'] for y in sub(x) if y['k'] == 'MemberExpr'}
+            if is_ov and seen_overlap:
+                continue
+            seen_overlap = seen_overlap or is_ov
+            tmp.append(x)
+        expanded = tmp
+    disj = expanded
     for d in disj:
         names = [y['ref']['name'] for y in sub(d) if y['k'] == 'MemberExpr']
         if 'ancestors' in names and 'source' in names and any(y.get('callee', {}).get('q', '').endswith('::find') for y in sub(d)):
